@@ -7,6 +7,7 @@
 #include <cstdio>
 #include <cstring>
 #include <cstdlib>
+#include <string>
 #include "JSON.hpp"
 #include "Template.hpp"
 #include "BigInt.hpp"
@@ -335,6 +336,27 @@ static Case cases[] = {
              Digit::NumberToString(ss, 99.99999, Digit::RealFormatInfo{3U, Digit::RealFormatType::Default});
          }
          return bad;
+     }},
+    // ---- C01: tag records whose 16-bit fields cannot hold the tag
+    {"tmpl_inline_if_longer_than_16_bits", [] {
+         std::string t = "{if case=\"1\" true=\"";
+         t.append(70000, 'x');
+         t += "{var:a}\"}";
+         char *p = exact(t.c_str(), t.size());
+         Value<char> v = JSON::Parse("{\"a\":1}");
+         StringStream<char> ss;
+         Template::Render(p, (SizeT)t.size(), v, ss);
+         free(p);
+         return 0;
+     }},
+    {"tmpl_inline_if_subtag_outside_ranges", [] {
+         const char *t = "{if case=\"1\" true=\"T\" foo=\"{var:z}\"}";
+         char *p = exact(t, strlen(t));
+         Value<char> v = JSON::Parse("{\"z\":1}");
+         StringStream<char> ss;
+         Template::Render(p, (SizeT)strlen(t), v, ss);
+         free(p);
+         return 0;
      }},
 };
 
